@@ -35,12 +35,17 @@ func runC09(c *Ctx) {
 	c09R8(c)
 	c08R5As(c, c.R.Rule("R9", "K3 (= C08.R5) v1: a processor reply that changes the record position — to anything, including an empty one — is refused: the record is replaced and sent on only on the bytes.Equal(processed position, original position) edge", 2))
 	c09R10(c)
+	c01R7As(c, c.R.Rule("R12", "K3 (= C01.R7) a source read of zero records acks nothing: runAckNacker.vote reaches the parent only from inside the per-record walk, so Source.Ack (which indexes the last position) never sees an empty slice", 3))
+	c09R13(c)
 	c01R4As(c, c.R.Rule("R11", "K3 (= C01.R4) v2: a destination (or DLQ) that answers with fewer acks than records written — empty ack responses — never makes DestinationTask.Do return nil: the pass fails instead of acking unconfirmed records", 4))
 }
 
 // c09R10: only the source task's read may end a pass quietly.
 func c09R10(c *Ctx) {
-	r := c.R.Rule("R10", "K3 v2 graceful-read classification: in Worker.doTaskAttempt a task error is turned into the (possibly nil) context error only for the first task of the chain (the source read) — a destination or processor error wrapping context.Canceled is still an error", 1)
+	c09R10As(c, c.R.Rule("R10", "K3 v2 graceful-read classification: in Worker.doTaskAttempt a task error is turned into the (possibly nil) context error only for the first task of the chain (the source read) — a destination or processor error wrapping context.Canceled is still an error", 1))
+}
+
+func c09R10As(c *Ctx, r string) {
 	fn := c.SSA(r, pFunnel, "(*Worker).doTaskAttempt")
 	isFirst := c.Fn(r, pFunnel, "(*TaskNode).IsFirst")
 	ctxErr := c.W.ExtMethod("context", "Context", "Err")
@@ -182,7 +187,10 @@ func twoSided(c *Ctx, r, key string, fn *ssa.Function, call ssa.CallInstruction,
 }
 
 func c09R1(c *Ctx) {
-	r := c.R.Rule("R1", "K13 processor reply length: at each Process call boundary both directions of a length mismatch are diverted before the reply is used positionally", 6)
+	c09R1As(c, c.R.Rule("R1", "K13 processor reply length: at each Process call boundary both directions of a length mismatch are diverted before the reply is used positionally", 6))
+}
+
+func c09R1As(c *Ctx, r string) {
 	procProcess := c.W.ExtMethod(pSDK, "Processor", "Process")
 	if procProcess == nil {
 		c.R.Unresolved(r, pSDK+".Processor.Process")
@@ -763,4 +771,47 @@ func nonNilAt(p *packages.Package, id *ast.Ident, at ast.Node) bool {
 		})
 	}
 	return res
+}
+
+// c09R13: the two-message reply protocol of the builtin plugin sandbox.
+func c09R13(c *Ctx) {
+	r := c.R.Rule("R13", "K4 builtin sandbox reply pairing: once returnResponse has delivered the response, every exit has also delivered the error by an unconditional send (runSandbox receives the second value with a bare `<-c`; a send that can be abandoned on ctx.Done leaves that receive blocked for ever)", 1)
+	const rel = "pkg/plugin/connector/builtin"
+	fn := c.SSA(r, rel, "returnResponse")
+	if fn == nil {
+		return
+	}
+	var chanP ssa.Value
+	for _, p := range fn.Params {
+		if _, ok := p.Type().Underlying().(*types.Chan); ok {
+			chanP = p
+		}
+	}
+	if chanP == nil {
+		c.R.Undecided(r, "returnResponse: reply channel", c.Pos(fn.Pos()), "no channel parameter")
+		return
+	}
+	g := kit.NewGates()
+	for _, b := range fn.Blocks {
+		for _, in := range b.Instrs {
+			if s, ok := in.(*ssa.Send); ok && (s.Chan == chanP || kit.IsVar(s.Chan, chanP)) {
+				g.AddInstr(s, "c <- err")
+			}
+		}
+	}
+	n := 0
+	ok := true
+	for _, sel := range kit.Selects(fn) {
+		for i, st := range sel.States {
+			if st.Dir == types.SendOnly && (st.Chan == chanP || kit.IsVar(st.Chan, chanP)) {
+				for _, e := range kit.SelectArmEdges(sel, i) {
+					n++
+					if pass, _ := kit.AllExitsFromEdge(e, false, kit.ExitSpec{Gates: g}); !pass || g.Empty() {
+						ok = false
+					}
+				}
+			}
+		}
+	}
+	c.R.Check(ok && n > 0, r, "returnResponse: the error follows the response unconditionally", c.Pos(fn.Pos()), "plain send after the response arm", "after the response was delivered, returnResponse can return without an unconditional send of the error (or no response arm was found): the caller's second, bare receive never completes and the engine goroutine that called the builtin connector hangs", true)
 }
